@@ -1,5 +1,6 @@
 import WfModel.Replay
 import WfModel.Runner
+import WfModel.RunnerGone
 import WfModel.Context
 import WfModel.CollectConc
 import WfModel.Serial
@@ -361,6 +362,13 @@ def step (d : DState) (line : String) : DState × String :=
     | some (p, []) =>
       let r := d.run.step d.cfg p .drain
       ({ d with run := r }, sRunner r ++ " ;; " ++ sState d.cfg r.st)
+    | _ => (d, "bad-op")
+  | "wgone" :: ts =>
+    -- wgone <step> <wid>: the worker task of that invocation ended cancelled (no result): it leaves the task set, nothing else
+    match (do let s ← nat; let w ← nat; pure (s, w)) ts with
+    | some ((s, w), []) =>
+      if d.run.running.any (fun x => x.step == s && x.wid == w) then ({ d with run := d.run.workerGone s w }, "ok")
+      else (d, "no-worker")
     | _ => (d, "bad-op")
   | "swrite" :: ts =>
     match ev ts with
